@@ -157,6 +157,32 @@ var c08Layout = Register(Prop[c08Case]{
 		return c
 	},
 	Run: runC08,
+	Minimize: func(c c08Case, stillFails func(c08Case) bool) c08Case {
+		c.Script = minimizeScript(c.Script, func(s *Script) bool { cc := c; cc.Script = s; return stillFails(cc) })
+		// back to canonical, decision by decision
+		for i := range c.Layout.Tape {
+			if c.Layout.Tape[i] == 0 {
+				continue
+			}
+			cc := c
+			cc.Layout.Tape = append([]uint8{}, c.Layout.Tape...)
+			cc.Layout.Tape[i] = 0
+			if stillFails(cc) {
+				c = cc
+			}
+		}
+		for len(c.Layout.Tape) > 0 && c.Layout.Tape[len(c.Layout.Tape)-1] == 0 {
+			c.Layout.Tape = c.Layout.Tape[:len(c.Layout.Tape)-1]
+		}
+		for _, f := range []func(*c08Case){func(x *c08Case) { x.Layout.Unit = 4 }, func(x *c08Case) { x.Layout.CRLF = false }, func(x *c08Case) { x.Layout.FlatIf = false }, func(x *c08Case) { x.Layout.NoFinalNL = false }, func(x *c08Case) { x.Choices = x.Choices[:1] }} {
+			cc := c
+			f(&cc)
+			if stillFails(cc) {
+				c = cc
+			}
+		}
+		return c
+	},
 	Render: func(c c08Case) any {
 		lay := c.Layout
 		return map[string]any{"layout": map[string]any{"unit": c.Layout.Unit, "crlf": c.Layout.CRLF, "flat_if": c.Layout.FlatIf}, "files": renderScript(c.Script, &lay), "choices": c.Choices}
